@@ -9,10 +9,12 @@ mod core;
 mod csweep;
 mod flavor;
 mod gsweep;
+mod lockstep;
 mod refmodel;
 mod model;
 mod plans;
 mod progress;
+mod progsweep;
 mod report;
 mod sched;
 mod seqx;
